@@ -557,7 +557,9 @@ def dispatchStrm (v : View) (c : Ctx) : Ctx :=
   else if v.code < 32 then
     let c := c.emit (.req v.tok v.payload)
     let m : QMsg := { sn := c.s.next, con := true, code := 69, mid := 0, tok := v.tok }
-    (c.upd fun s => { s with next := s.next + 1 }).sendInternal m false
+    -- coap_send_internal on a reliable session = coap_send_pdu (nothing is kept for retransmission); handle_request
+    -- ignores its result (`sendfail` is what the APPLICATION's coap_send returns)
+    (c.upd fun s => { s with next := s.next + 1 }).sendPdu m false false
   else if v.code ≥ 64 then c.emit (.rsp v.tok v.code)
   else c.emit (.unmodelled "code")
 
